@@ -79,6 +79,7 @@ type frame struct {
 }
 
 type FnExec struct {
+	sharedN     int // ordinal of the next shared[..] obligation (writes to package-level state)
 	okRefs map[Term]bool      // interface values produced by `v, ok := x.(T)`: nil when the assertion failed
 	callPC map[*ssa.Call]Term // path condition under which each call of the top frame was executed (error-propagation family)
 	eng           *Engine
